@@ -82,3 +82,10 @@ package middleware
 //@     needs before findMatchingRule(_, $origin, _, _, _) -> (_, _, $ok) where $ok
 //@ effect[C34:preflight-ok-only-by-matching-rule] every w.WriteHeader($code) if $code != 403
 //@     needs before findMatchingRule(_, _, _, _, _) -> (_, _, $ok) where $ok
+
+// C34. Every requested header takes part in the rule match (ghost scenario over header lists of up to 300 entries;
+// bounded random search: strings.Split and the trimming loop are outside the modelled subset).
+//@ func verifHeaderListKeepsEveryHeader
+//@ mode nosafety
+//@ bounded 1200
+//@ ensures[C34:every-requested-header-is-matched] result
